@@ -271,6 +271,25 @@ class DavSys:
             self.last_audit = self.audit()
         fault_k = None
         full_op = op
+        if op[0] == "burst":
+            # two writes back to back with NO read in between (the audit after every step would otherwise always intervene);
+            # only the model-equality part of the oracles applies to the pair
+            self._no_audit = True
+            try:
+                i1 = self.apply(tuple(op[1]), check=False)
+            finally:
+                self._no_audit = False
+            self.hist.pop()
+            self._burst = True
+            try:
+                info = self.apply(tuple(op[2]), check=check)
+            finally:
+                self._burst = False
+            self.hist.pop()
+            self.hist.append(full_op)
+            info["outcome"] = "burst:%s+%s" % (i1.get("outcome"), info.get("outcome"))
+            info["success"] = bool(i1.get("success") or info.get("success"))
+            return info
         if op[0] == "fault":
             fault_k = op[1]
             op = tuple(op[2])
@@ -409,6 +428,8 @@ class DavSys:
             info["fault"] = self.last_fault
             info["outcome"] = "fault:" + info["outcome"]
         self.hist.append(full_op)
+        if getattr(self, "_no_audit", False):
+            return info
         self.prev_audit = prev
         audit = self.audit()
         self.recording = check
@@ -589,6 +610,15 @@ class DavSys:
 
     def check(self, op, info, resp, prev, audit, model_before, tcoll, tname):
         orc = self.cfg.oracles
+        if getattr(self, "_burst", False):
+            if "C01" in orc:
+                self.check_c01(("burst",) + tuple(op), dict(info, success=True), audit, audit, None, None)
+            if "C02" in orc:
+                self.check_c02(("burst",) + tuple(op), {"success": False}, audit, audit, None, None)
+            if "C06" in orc:
+                # only the invariant (no UID twice) is judged after a burst
+                self.check_c06(("burst",), info, None, audit, audit, tcoll, tname)
+            return
         if "C01" in orc:
             self.check_c01(op, info, prev, audit, tcoll, tname)
         if "C02" in orc:
@@ -1036,6 +1066,14 @@ def default_ops(s):
         for pk, vals in cfg.props.get(coll, {}).items():
             for v in vals:
                 ops.append(("proppatch", coll, pk, v))
+    if "burst" in cfg.features and s.model.get("cal") is not None:
+        n = cfg.names["cal"]
+        b = cfg.bodies["cal"]
+        a0, a1 = n[0], n[-1]
+        pairs = [(("put", "cal", a0, b[0]), ("put", "cal", a0, b[1])), (("put", "cal", a0, b[0]), ("delete", "cal", a0)), (("delete", "cal", a0), ("put", "cal", a0, b[0])),
+                 (("put", "cal", a0, b[0]), ("put", "cal", a1, b[0])), (("put", "cal", a0, b[1]), ("put", "cal", a1, b[2 % len(b)])), (("delete", "cal", a0), ("delete", "cal", a1))]
+        for (o1, o2) in pairs:
+            ops.append(("burst", o1, o2))
     if "cond" in cfg.features:
         nm = cfg.names["cal"][0]
         b = cfg.bodies["cal"][0]
